@@ -30,6 +30,7 @@ TARGETS = {   # entity kind -> list of (class name stem, pybind cpp suffix, matl
     'derived': [('De', '', '', 'class')],
     'noctor': [('Nc', '', '', 'class')],
     'serial': [('Se', '', '', 'class')],
+    'samename': [('Same', '', '', 'class')],     # the same class name exists in every scope
 }
 
 
@@ -53,7 +54,7 @@ def delete_target(mod, path, cname, how):
 
 
 def py_blocks(text, ignore):
-    out = gen.pybind(text, ignore=ignore)
+    out = gen.pybind(text, ignore=ignore, serialization=True)
     sec = gen.pybind_sections(out)
     blocks = {}
     for r in gen.scan_pybind(sec['WRAPPED']):
@@ -68,11 +69,14 @@ def py_blocks(text, ignore):
         else:
             blocks.setdefault('other', []).append(r['stmt'])
     blocks['includes'] = [sec['INCLUDES']]
+    for line in sec['EXPORT'].split('\n'):
+        if line.strip():
+            blocks.setdefault('export:' + line.strip(), []).append(line.strip())
     return out, blocks
 
 
 def ml_blocks(text, ignore):
-    tree = gen.matlab(text, ignore=ignore)
+    tree = gen.matlab(text, ignore=ignore, serialization=True)
     mex = gen.scan_mex(tree['mod_wrapper.cpp'])
     id2name = {cid: (re.sub(r'_\d+$', '', calls[0]) if calls else '?') for cid, calls in mex['cases']}
     blocks = {}
@@ -105,6 +109,25 @@ def belongs(key, names):
 _validated = [False]
 
 
+def belongs_same(key, path):
+    """Blocks of the class `Same` declared in namespace `path` (other scopes have a class of the same name)."""
+    qual = '::'.join(path + ['Same'])
+    tag = ''.join(path) + 'Same'
+    pkg = ''.join('+%s/' % p for p in path)
+    kind, _, rest = key.partition(':')
+    if kind in ('class', 'enum'):
+        return rest == qual or rest.startswith(qual + '::')
+    if kind == 'export':
+        return qual in rest and ('::' + qual) not in rest
+    if kind == 'm':
+        return rest == pkg + 'Same.m' or rest.startswith(pkg + '+Same/')
+    if kind == 'mex':
+        return rest.startswith(tag + '_')
+    if kind in ('collector', 'cleanup', 'rtti'):
+        return rest == tag
+    return False
+
+
 def check_case(case):
     # parse each text once per worker (deep copies are handed out); validated once per process against a fresh parse
     if not _validated[0]:
@@ -120,7 +143,7 @@ def check_case(case):
     gen.enable_parse_cache()
     kinds, path, stem, pysuf, mlsuf, how = case['kinds'], case['path'], case['stem'], case['pysuf'], case['mlsuf'], case['how']
     mod = c10.build(kinds)
-    cname = stem + c10.tag(path)
+    cname = stem + c10.tag(path) if stem != 'Same' else 'Same'
     text_m = D.render(mod)
     text_del = D.render(delete_target(mod, path, cname, how))
     py_ign = '::'.join(path + [cname]) + pysuf
@@ -132,6 +155,8 @@ def check_case(case):
     def add(sig, msg):
         viol.append({'sig': sig, 'msg': '%s\n%s\n--- input ---\n%s' % (msg, ctxs, text_m)})
     own = [cname + mlsuf, cname + pysuf] if how == 'inst' else [cname]
+    if cname == 'Same':
+        own = None    # qualified matching, see belongs_same
     for g, blocks_fn, ign in (('pybind', py_blocks, py_ign), ('matlab', ml_blocks, ml_ign)):
         try:
             full, b_full = blocks_fn(text_m, [])
@@ -152,16 +177,16 @@ def check_case(case):
                     % (g, ign, keys[:6]))
         # every other entity's block is unchanged by the deletion
         for k in sorted(b_full):
-            if belongs(k, own) or k in ('other',):
-                continue
-            if k.startswith('m:') and belongs(k, own):
+            if own is None and k == 'mex:Same_upcastFromVoid':
+                continue   # up-cast routines are named after the bare class name: one block for all classes called Same
+            if k in ('other',) or (belongs(k, own) if own is not None else belongs_same(k, path)):
                 continue
             if b_del.get(k) != b_full[k]:
                 add('C15|%s|unrelated-block-changed|%s|%s|%s' % (g, k.split(':')[0], stem, scope),
                     '%s: deleting %s changes the block %s of an unrelated entity' % (g, cname, k))
         for k in sorted(set(b_del) - set(b_full)):
             add('C15|%s|new-block-after-delete|%s' % (g, stem), '%s: deleting %s creates block %s' % (g, cname, k))
-        left = [k for k in b_del if belongs(k, own) and not (how == 'inst')]
+        left = [k for k in b_del if k != 'mex:Same_upcastFromVoid' and (belongs(k, own) if own is not None else belongs_same(k, path)) and not (how == 'inst')]
         if left:
             add('C15|%s|artefacts-left|%s' % (g, stem), '%s: artefacts of the deleted class remain: %s' % (g, left[:5]))
     return {'viol': viol}
